@@ -3,11 +3,14 @@ import LemoModel.Assets
 namespace Driver.C12
 open LemoModel.Assets Driver
 
+/-- the LIVE model is the repaired transfer (`fixed = true`); the driver has no way to select the legacy variant -/
 structure D where
-  fixed : Bool := true
   nAddrs : Nat := 0
   stable : St := St.empty
   cur : St := St.empty
+  height : Nat := 0
+  hist : List (Nat × St) := []      -- state after each described block, newest first
+  box : Option (List Op) := none    -- sub-transactions of the box being described, newest first
 
 /-- amount token of the harness: `s:<text>` a JSON string (parsed by the MODEL's parser), anything else is rejected -/
 def amount (tok : String) : Option Int :=
@@ -16,52 +19,77 @@ def amount (tok : String) : Option Int :=
 def bit (s : String) : Option Bool :=
   if s == "1" then some true else if s == "0" then some false else none
 
+def fzOf (fz : String) : Fz :=
+  if fz == "none" then .empty else if fz == "-" then .otherKey else if fz == "big" then .tooLong else .set (fz == "true")
+
 def parseOp : List String → Option Op
-  | ["create", sd, h, cat, dv, rp, dc, fz] => do
-    some (.create (← sd.toNat?) (← h.toNat?) (← cat.toNat?) (← bit dv) (← bit rp) (← dc.toNat?) (fz == "true"))
+  | ["create", sd, h, cat, dv, rp, dc, fz, big] => do
+    some (.create (← sd.toNat?) (← h.toNat?) (← cat.toNat?) (← bit dv) (← bit rp) (← dc.toNat?) (fz == "true") (← bit big))
   | ["issue", sd, rc, h, c, m, a] => do
     some (.issue (← sd.toNat?) (← rc.toNat?) (← h.toNat?) (← c.toNat?) (← m.toNat?) (amount a))
   | ["replenish", sd, rc, c, i, a] => do
     some (.replenish (← sd.toNat?) (← rc.toNat?) (← c.toNat?) (← i.toNat?) (amount a))
   | ["modify", sd, c, fz] => do
-    some (.modify (← sd.toNat?) (← c.toNat?) (if fz == "none" then .empty else if fz == "-" then .otherKey else .set (fz == "true")))
+    some (.modify (← sd.toNat?) (← c.toNat?) (fzOf fz))
   -- an empty freeze value arrives as a missing word
   | ["modify", sd, c] => do some (.modify (← sd.toNat?) (← c.toNat?) (.set false))
   | ["transfer", sd, rc, i, ck, a] => do
     some (.transfer (← sd.toNat?) (← rc.toNat?) (← i.toNat?) (← ck.toNat?) (amount a))
   | _ => none
 
+def b01 (b : Bool) : String := if b then "1" else "0"
+
 def dump (d : D) (nh : Nat) : String :=
   let s := d.cur
   let codes := (List.range nh).filterMap fun c =>
     match s.assets c with
-    | some r => some s!"c{c}={r.supply}/{if r.frozen then 1 else 0} "
+    | some r => some s!"c{c}={r.supply}/{b01 r.frozen}/{r.issuer}/{r.category}/{b01 r.divisible}/{b01 r.replenishable} "
     | none => none
   let ents := (List.range d.nAddrs).flatMap fun a =>
     (List.range nh).filterMap fun i =>
-      if i == 0 then none else
       match s.equity a i with
-      | some (c, e) => some s!" {a}:{i}={c},{e},{if s.idMeta a i then 1 else 0}"
+      | some (c, e) => some s!" {a}:{i}={c},{e},{b01 (s.idMeta a i)}"
       | none => none
   String.join codes ++ "|" ++ String.join ents
 
+def stateAt (d : D) (h : Nat) : St :=
+  match d.hist.find? (fun p => p.1 == h) with
+  | some p => p.2
+  | none => St.empty
+
 def step (d : D) (w : List String) : D × String :=
   match w with
-  | ["init", n, variant] =>
-    match n.toNat? with
-    | some n => ({ nAddrs := n, fixed := variant != "asis", stable := St.empty, cur := St.empty }, "ok")
-    | none => (d, "bad-op")
-  | ["block", _] => ({ d with stable := d.cur }, "ok")
+  | ["init", n, h0] =>
+    match n.toNat?, h0.toNat? with
+    | some n, some h0 => ({ nAddrs := n, height := h0 }, "ok")
+    | _, _ => (d, "bad-op")
+  -- `block h sh`: block at height h, executed while the node's latest stable block is the one at height sh
+  | ["block", h, sh] =>
+    match h.toNat?, sh.toNat? with
+    | some h, some sh => ({ d with height := h, stable := stateAt d sh, box := none }, "ok")
+    | _, _ => (d, "bad-op")
   | "tx" :: rest =>
     match parseOp rest with
     | none => (d, "bad-op")
     | some op =>
-      match apply d.fixed d.stable d.cur op with
+      match apply true d.stable d.cur op with
       | .ok s' => ({ d with cur := s' }, "ok")
       | .error e => (d, "err " ++ e.name)
+  | ["box", _] => ({ d with box := some [] }, "ok")
+  | "sub" :: rest =>
+    match parseOp rest, d.box with
+    | some op, some l => ({ d with box := some (op :: l) }, "ok")
+    | _, _ => (d, "bad-op")
+  | ["boxend"] =>
+    match d.box with
+    | none => (d, "bad-op")
+    | some l =>
+      match applyBox true d.stable d.cur l.reverse with
+      | .ok s' => ({ d with cur := s', box := none }, "ok")
+      | .error e => ({ d with box := none }, "err " ++ e.name)
   | ["end", nh] =>
     match nh.toNat? with
-    | some nh => (d, dump d nh)
+    | some nh => ({ d with hist := (d.height, d.cur) :: d.hist }, dump d nh)
     | none => (d, "bad-op")
   | _ => (d, "bad-op")
 
